@@ -12,6 +12,8 @@ STD_ACCESSORS = ("operator[]", "at", "begin", "end", "rbegin", "rend", "data", "
                  "upper_bound", "operator*", "operator->", "get", "top")
 
 
+EIGEN_ACCESSORS = ("operator()", "operator[]", "coeff", "coeffRef", "data", "col", "row", "rows", "cols", "size", "adjoint", "transpose")
+
 # free functions that take a non-const reference only to hand out a reference into it
 NONMUTATING_FREE = ("boost::get", "std::get", "boost::tuples::get", "std::begin", "std::end", "std::addressof", "boost::addressof")
 
@@ -61,7 +63,9 @@ class Ctx:
                     cp = n.get("cparams") or []
                     args = n["args"]
                     off = 0
-                    accessor = (n.get("cname") or "").startswith("std::") and strip_targs(n.get("cname") or "").split("::")[-1] in STD_ACCESSORS
+                    _cn = n.get("cname") or ""
+                    _short = strip_targs(_cn).split("::")[-1]
+                    accessor = (_cn.startswith("std::") and _short in STD_ACCESSORS) or (_cn.startswith("Eigen::") and _short in EIGEN_ACCESSORS)
                     if k == "call" and n["ck"] == "op" and n.get("ismember"):
                         # first arg is the object
                         d = self.root_var(args[0]) if args else None
@@ -101,7 +105,7 @@ class Ctx:
                 i = n["base"]
             elif k == "index":
                 i = n["base"]
-            elif k == "call" and n["ck"] == "op" and n["op"] == "[]":
+            elif k == "call" and n["ck"] == "op" and n["op"] in ("[]", "()"):
                 i = n["args"][0]
             elif k == "cast":
                 i = n["sub"]
